@@ -175,3 +175,17 @@ Qed.
 
 Theorem optimality_two_modes_nonneg (l : list (Qc * Qc)) : 3 <= length l -> (0 <= optimality (map (fun p => [fst p; snd p]) l))%Qc.
 Proof. intro H. rewrite optimality_two_modes by exact H. apply lagrange_nonneg. Qed.
+
+(* ---- the selection matrix of determinant(): c[i, top_sensors[i]] = 1, theta = c @ phi ----
+   (function form of LA/Sums.v; n = number of sensor locations)  theta is phi restricted to the chosen rows, in the
+   order of top_sensors, repeated sensors included: what the correspondence hands to [optimality]. *)
+Definition selmat (S : list nat) : nat -> nat -> Qc := fun i j => if Nat.eqb j (nth i S 0) then 1%Qc else 0%Qc.
+Definition sel_product (n : nat) (S : list nat) (phi : nat -> nat -> Qc) : nat -> nat -> Qc :=
+  fun i c => sum n (fun j => selmat S i j * phi j c)%Qc.
+
+Theorem selection_product_picks_rows n S phi i c : nth i S 0 < n -> sel_product n S phi i c = phi (nth i S 0) c.
+Proof.
+  intro H. unfold sel_product. rewrite (sum_single n (nth i S 0)); auto.
+  - unfold selmat. rewrite Nat.eqb_refl. ring.
+  - intros j _ Hj. unfold selmat. destruct (Nat.eqb_spec j (nth i S 0)); [contradiction|ring].
+Qed.
